@@ -54,6 +54,14 @@ def write_evidence(prop, tier, seed, t0, explanation, rep, ctx, extra=None, viol
     }
     if ctx is not None:
         cov["analysed"] = dict(ctx.P.stats(), **ctx.R.call_stats())
+        from .core.normalise import PASSES
+        cov["loader"] = {
+            "canonical_form_passes": [getattr(p_, "__name__", str(p_)).lstrip("_") for p_ in PASSES],
+            "reidentified": getattr(ctx.P, "reidentified", None) or {"renamed_back": {}, "helpers_expanded": 0},
+            "note": "rules are evaluated on the canonical form of every module (DESIGN.md §12); positions are those of the source",
+        }
+    if rep is not None and getattr(rep, "refused", None):
+        cov["clauses_not_analysed"] = [{"clause_function": w, "reason": r} for w, r in rep.refused]
     if rep is not None and rep.notes:
         cov["notes"] = rep.notes
     if extra:
